@@ -15,9 +15,9 @@ import (
 	pebblev1 "github.com/NethermindEth/juno/db/pebble"
 	"github.com/NethermindEth/juno/db/pebblev2"
 	cpebble "github.com/cockroachdb/pebble"
-	cvfs "github.com/cockroachdb/pebble/vfs"
 	cpebble2 "github.com/cockroachdb/pebble/v2"
 	cvfs2 "github.com/cockroachdb/pebble/v2/vfs"
+	cvfs "github.com/cockroachdb/pebble/vfs"
 	"verif/harness/lib"
 )
 
